@@ -7,6 +7,7 @@ import (
 	"pgregory.net/rapid"
 	"seehuhn.de/go/pdf"
 	"seehuhn.de/go/pdf/verif/internal/gen"
+	"seehuhn.de/go/pdf/verif/internal/vt"
 	"seehuhn.de/go/pdf/verif/internal/wprog"
 )
 
@@ -70,6 +71,14 @@ func genCase(t *rapid.T) Case {
 	c.PreAlloc = rapid.SampledFrom([]int{0, 1, 2, 3, 6, 14, 20, 25}).Draw(t, "prealloc")
 
 	n := rapid.IntRange(1, 12).Draw(t, "nodes")
+	c.WriteMode = rapid.SampledFrom([]string{"", "", "", "open", "late"}).Draw(t, "writemode")
+	if c.WriteMode != "" {
+		// a pack of streams which are copied on purpose while writing is delayed
+		c.Pack = rapid.IntRange(2, 5).Draw(t, "pack")
+		if n < c.Pack {
+			n = c.Pack
+		}
+	}
 	c.Nodes = make([]Node, n)
 
 	// skeleton first: kinds, generations, filters, indirection flags
@@ -91,6 +100,9 @@ func genCase(t *rapid.T) Case {
 		nd.Num = uint32(firstNodeNum + i)
 		nd.Gen = rapid.SampledFrom([]uint16{0, 0, 0, 0, 0, 1, 7}).Draw(t, "gen")
 		nd.Kind = rapid.SampledFrom([]string{"obj", "obj", "obj", "link", "stream", "stream"}).Draw(t, "kind")
+		if i < c.Pack {
+			nd.Kind = "stream"
+		}
 		if nd.Kind == "stream" {
 			nf := rapid.SampledFrom([]int{0, 1, 1, 2, 2, 3}).Draw(t, "nfilters")
 			rl := 1
@@ -112,6 +124,13 @@ func genCase(t *rapid.T) Case {
 				nd.Filters = append(nd.Filters, tag)
 			}
 			nd.Data = gen.Hex(wprog.Body(2500, rl).Draw(t, "data"))
+			if i < c.Pack {
+				// sizes from a small set: later streams smaller than, equal
+				// to and larger than earlier ones; contents differ
+				size := rapid.SampledFrom([]int{0, 1, 15, 16, 17, 100, 100, 1000, 1000, 1024, 2000}).Draw(t, "packsize")
+				size = size / rl * rl
+				nd.Data = gen.Hex(vt.NewRand(rapid.Uint64().Draw(t, "packseed")).Bytes(size))
+			}
 			if c.Writer == "lib" && sv >= pdf.V1_5 && (c.Src.UserPW != "" || c.Src.OwnerPW != "") {
 				// explicit /Crypt filter with the Identity crypt filter:
 				// the stream is stored as plaintext in the encrypted file
@@ -266,7 +285,30 @@ func genCase(t *rapid.T) Case {
 	for _, num := range pool {
 		refPool = append(refPool, fix(gen.O{T: "ref", N: num}))
 	}
+	// delayed writing: copy the pack first
+	if c.Pack > 0 {
+		order := rapid.Permutation(c.Nodes[:c.Pack]).Draw(t, "packorder")
+		switch {
+		case c.WriteMode == "late":
+			for _, nd := range order {
+				c.Calls = append(c.Calls, Call{Op: "copyget", N: nd.Num, G: nd.Gen})
+			}
+		case rapid.Bool().Draw(t, "pack-in-one-array"):
+			arr := gen.O{T: "arr"}
+			for _, nd := range order {
+				arr.A = append(arr.A, gen.O{T: "ref", N: nd.Num, G: nd.Gen})
+			}
+			c.Calls = append(c.Calls, Call{Op: "copyobj", Obj: &arr})
+		default:
+			for _, nd := range order {
+				c.Calls = append(c.Calls, Call{Op: "copyref", N: nd.Num, G: nd.Gen})
+			}
+		}
+	}
 	ncalls := rapid.IntRange(1, 6).Draw(t, "ncalls")
+	if c.Pack > 0 {
+		ncalls = rapid.IntRange(0, 2).Draw(t, "ncalls-after-pack")
+	}
 	for i := 0; i < ncalls; i++ {
 		op := rapid.SampledFrom([]string{"copyref", "copyref", "copyref", "copyref", "repeat", "repeat",
 			"copyget", "copyget", "copyobj", "copyobj", "redirect", "redirect"}).Draw(t, "op")
